@@ -183,12 +183,40 @@ def norm_tok(t):
     return t
 
 
-def tab_property(md, doc, twin):
+def merge_text(ts):
+    out = []
+    for t in ts:
+        if t.get("children"):
+            t = dict(t, children=merge_text(t["children"]))
+        if out and t["type"] == "text" and out[-1]["type"] == "text":
+            out[-1] = dict(out[-1], content=re.sub(r" +", " ", out[-1]["content"] + t["content"]))
+        else:
+            out.append(t)
+    return out
+
+
+def loose_tok(t):
+    """family (c): a marker-like character in running text keeps the tab after it, which is content there, so
+    content is compared with every blank run collapsed; structure (types, nesting, levels, maps, markup, info,
+    attributes) is compared exactly"""
+    t = norm_tok(t)
+    if isinstance(t.get("content"), str):
+        t["content"] = "\n".join(re.sub(r"[ \t]+", " ", ln).strip(" ") for ln in t["content"].split("\n"))
+    if t.get("children"):
+        t["children"] = [loose_tok(c) for c in t["children"]]
+    return t
+
+
+def tab_property(md, doc, twin, loose=False):
+    nt = loose_tok if loose else norm_tok
     try:
-        a = [norm_tok(t.as_dict()) for t in guarded(md.parse, doc)]
-        b = [norm_tok(t.as_dict()) for t in guarded(md.parse, twin)]
+        a = [nt(t.as_dict()) for t in guarded(md.parse, doc)]
+        b = [nt(t.as_dict()) for t in guarded(md.parse, twin)]
     except Exception:  # noqa: BLE001
         return None
+    if loose:
+        # adjacent text children may split differently around a collapsed blank: compare their concatenation
+        a, b = merge_text(a), merge_text(b)
     if a != b:
         return {"what": "tab spelling and space spelling parse differently", "tab_doc": doc, "space_doc": twin,
                 "html_tab": md.render(doc)[:400], "html_space": md.render(twin)[:400]}
@@ -337,7 +365,14 @@ def run(ctx) -> int:
         mds = [configs.make_md(c) for c in configs.STANDARD[:3]]
         for k in range(count):
             md = mds[k % len(mds)]
-            if k % 2:
+            loose = False
+            if k % 3 == 2:
+                # family (c): tab-rich nested containers; every tab of the structural prefix expanded by column
+                # trailing blanks removed: after a marker-like word in running text they would decide a hard break
+                doc = "\n".join(l.rstrip(" \t") for l in docs.tabbed_doc(r).split("\n"))
+                twin = "\n".join(expand_structural(l) for l in doc.split("\n"))
+                loose = True
+            elif k % 3 == 1:
                 doc, twin = gen_segments(r)
             else:
                 doc = docs.random_doc(r).replace("\r", "")
@@ -347,9 +382,9 @@ def run(ctx) -> int:
             if doc == twin:
                 continue
             n_tab += 1
-            d = tab_property(md, doc, twin)
+            d = tab_property(md, doc, twin, loose)
             if d:
-                return {"config": configs.STANDARD[k % 3], **d}
+                return {"config": configs.STANDARD[k % 3], "loose": loose, **d}
         return None
 
     direct = probe_enc(rng, 500 if tier == "quick" else 20000)
@@ -378,7 +413,7 @@ def run(ctx) -> int:
 def replay(body) -> int:
     if "tab_doc" in body:
         md = configs.make_md(body.get("config", configs.STANDARD[0]))
-        d = tab_property(md, body["tab_doc"], body["space_doc"])
+        d = tab_property(md, body["tab_doc"], body["space_doc"], body.get("loose", False))
     elif "src" in body and "config" in body:
         d = encoding_property(body["config"], body["src"])
     else:
